@@ -92,6 +92,7 @@ inductive Stmt where
   | while (c : Expr) (b : Stmt)
   | doWhile (b : Stmt) (c : Expr)
   | for (init : ForInit) (test upd : Option Expr) (b : Stmt)
+  | forOf (k : DeclKind) (x : Name) (e : Expr) (b : Stmt)      -- for (k x of e) b   (arrays only)
   | brk (l : Option Name)
   | cont (l : Option Name)
   | ret (e : Option Expr)
@@ -150,6 +151,8 @@ def varNamesS : Stmt → List Name
   | .doWhile b _ => varNamesS b
   | .for (.decl .var ds) _ _ b => declNames ds ++ varNamesS b
   | .for _ _ _ b => varNamesS b
+  | .forOf .var x _ b => x :: varNamesS b
+  | .forOf _ _ _ b => varNamesS b
   | .try b _ _ cb _ fb => varNamesL b ++ (varNamesL cb ++ varNamesL fb)
   | .labeled _ s => varNamesS s
   | .switch _ cs => varNamesC cs
